@@ -42,6 +42,9 @@ type Params struct {
 	Cancel  bool        `json:"cancel,omitempty"`   // a thread cancels the request context at an arbitrary time
 	Early   int         `json:"early,omitempty"`    // the consumer stops after this many results and closes
 	FaultAt int         `json:"fault_at,omitempty"` // the k-th datastore read fails (1-based; 0 = never)
+	// CancelInRead: the request context is cancelled while the k-th datastore read is in flight (issued, result
+	// not yet handed back); the read is released when everything else has quiesced or at any earlier point
+	CancelInRead int `json:"cancel_in_read,omitempty"`
 	Fault   string      `json:"fault,omitempty"`    // "panic" | "error"
 }
 
@@ -66,8 +69,47 @@ func (f *faultyReader) ReadStartingWithUser(ctx context.Context, store string, f
 	return f.RelationshipTupleReader.ReadStartingWithUser(ctx, store, filter, o)
 }
 
+// slowReader makes a datastore read a visible, interruptible step: the scheduler may run other threads (the
+// cancelling thread, other workers) between the moment the read is issued and the moment its result is back.
+type slowReader struct {
+	storage.RelationshipTupleReader
+	k, n            int // hold the k-th read (0 = none)
+	issued, release chan int
+}
+
+// bufferedIter: an iterator whose rows are already in memory keeps yielding after the request context was
+// cancelled (as a cache-hit iterator or a driver with a filled row buffer does); the memory datastore's own
+// iterator stops at the first Next after cancellation.
+type bufferedIter struct{ storage.TupleIterator }
+
+func (b bufferedIter) Next(context.Context) (*openfgav1.Tuple, error) {
+	return b.TupleIterator.Next(context.Background())
+}
+func (b bufferedIter) Head(context.Context) (*openfgav1.Tuple, error) {
+	return b.TupleIterator.Head(context.Background())
+}
+
+func (f *slowReader) ReadStartingWithUser(ctx context.Context, store string, filter storage.ReadStartingWithUserFilter, o storage.ReadStartingWithUserOptions) (storage.TupleIterator, error) {
+	vrt.Point("store-read-issued")
+	it, err := f.RelationshipTupleReader.ReadStartingWithUser(context.Background(), store, filter, o)
+	if err == nil && f.k > 0 {
+		it = bufferedIter{it}
+	}
+	f.n++
+	if f.k > 0 && f.n == f.k {
+		vrt.Send(f.issued, 1) // rendezvous with the helper that cancels the request
+		vrt.Recv(f.release)
+	}
+	vrt.Point("store-read-returned")
+	return it, err
+}
+
 func (p Params) String() string {
-	return fmt.Sprintf("%s %s#%s@%s chunk=%d buf=%d procs=%d cancel=%v early=%d fault=%s@%d tuples{%s}", p.Name, p.Type, p.Rel, p.Subject, p.Chunk, p.Buffer, p.Procs, p.Cancel, p.Early, p.Fault, p.FaultAt, e2.TuplesStr(p.Tuples))
+	cir := ""
+	if p.CancelInRead > 0 {
+		cir = fmt.Sprintf(" cancel-in-read=%d", p.CancelInRead)
+	}
+	return fmt.Sprintf("%s %s#%s@%s chunk=%d buf=%d procs=%d cancel=%v early=%d fault=%s@%d%s tuples{%s}", p.Name, p.Type, p.Rel, p.Subject, p.Chunk, p.Buffer, p.Procs, p.Cancel, p.Early, p.Fault, p.FaultAt, cir, e2.TuplesStr(p.Tuples))
 }
 
 func rel(e *ref.Expr, rs ...ref.Restr) *ref.RelDef { return &ref.RelDef{Rewrite: e, Restr: rs} }
@@ -138,6 +180,23 @@ func baseScenarios(thorough bool) []Params {
 		q.Cancel = false
 		q.Early = 1
 		out = append(out, q)
+	}
+	// cancellation while the k-th datastore read is in flight, for every k the undisturbed run makes (<8)
+	ci := []int{0, 4}
+	if thorough {
+		ci = []int{0, 2, 4, 6}
+	}
+	for _, i := range ci {
+		for k := 1; k <= 6; k++ {
+			if !thorough && k > 4 {
+				continue
+			}
+			q := ps[i]
+			q.Model = ms[q.Name]
+			q.Chunk, q.Buffer, q.Procs = 1, 1, 1
+			q.CancelInRead = k
+			out = append(out, q)
+		}
 	}
 	// a datastore read that panics / fails at the k-th call (every k the undisturbed run makes; the run
 	// makes fewer than 8): the pipeline must still tear down (Close returns, nobody is left parked)
@@ -221,6 +280,11 @@ func scenario(p Params) e1.Scenario {
 			if p.FaultAt > 0 {
 				rd = &faultyReader{RelationshipTupleReader: ds, k: p.FaultAt, kind: p.Fault}
 			}
+			var held *slowReader
+			if p.Cancel || p.CancelInRead > 0 {
+				held = &slowReader{RelationshipTupleReader: rd, k: p.CancelInRead, issued: vrt.MakeChan[int](0), release: vrt.MakeChan[int](0)}
+				rd = held
+			}
 			reader := pipeline.NewValidatingStore(rd, storeID, pipeline.WithStoreValidator(validator))
 			b, err := pipeline.NewBuilder(reader, pipeline.WithChunkSize(p.Chunk), pipeline.WithBufferCapacity(p.Buffer), pipeline.WithNumProcs(p.Procs))
 			if err != nil {
@@ -237,6 +301,20 @@ func scenario(p Params) e1.Scenario {
 					vrt.Point("cancel")
 					cancel()
 				})
+			}
+			if p.CancelInRead > 0 {
+				// helper threads (daemons: a run that makes fewer than k reads never meets them). H1 cancels once
+				// read k is in flight and releases it after H2's tick; H2 is the youngest thread, so in the default
+				// schedule its tick comes when everything else is blocked (the read returns into a torn-down
+				// pipeline); every earlier release point is an alternative at a blocking point (no preemption).
+				tick := vrt.MakeChan[int](0)
+				vrt.GoDaemon(func() {
+					vrt.Recv(held.issued)
+					cancel()
+					vrt.Recv(tick)
+					vrt.Send(held.release, 1)
+				})
+				vrt.GoDaemon(func() { vrt.Send(tick, 1) })
 			}
 			for {
 				v, ok := pl.Recv(ctx)
@@ -255,7 +333,14 @@ func scenario(p Params) e1.Scenario {
 		check := func(x *vrt.Execution) (string, string, string, uint64) {
 			g := append([]string{}, got...)
 			sort.Strings(g)
-			outcome := fmt.Sprintf("dead=%v live=%v panics=%d closed=%v err=%v got=%v", x.Deadlock, x.Livelock, len(x.Panics), closed, perr != nil, g)
+			es := "nil"
+			if perr != nil {
+				es = perr.Error()
+				if len(es) > 60 {
+					es = es[:60]
+				}
+			}
+			outcome := fmt.Sprintf("dead=%v live=%v panics=%d closed=%v err=%s got=%v", x.Deadlock, x.Livelock, len(x.Panics), closed, es, g)
 			key := core.Hash(outcome, fmt.Sprint(len(x.Points)/8))
 			desc := func(what string) string {
 				return fmt.Sprintf("%s | want=%v got=%v err=%v | scenario %s | %s", what, keys(want), g, perr, p, x.Summary())
@@ -285,7 +370,12 @@ func scenario(p Params) e1.Scenario {
 					return "pipeline-unsound-object", desc("object " + o + " delivered but the relation does not hold"), outcome, key
 				}
 			}
-			if !p.Cancel && p.Early == 0 && p.FaultAt == 0 {
+			if (p.Cancel || p.Early > 0 || p.CancelInRead > 0) && p.FaultAt == 0 && perr != nil && !errors.Is(perr, context.Canceled) && !errors.Is(perr, context.DeadlineExceeded) {
+				// cancelling the request (or closing early) may end the run with the cancellation error; any other
+				// error (a recovered panic such as a send on a closed channel) is a teardown defect
+				return "pipeline-error-other-than-cancellation-after-cancel", desc("pipeline error after cancellation / early close: " + perr.Error()), outcome, key
+			}
+			if !p.Cancel && p.Early == 0 && p.FaultAt == 0 && p.CancelInRead == 0 {
 				if perr != nil {
 					return "pipeline-unexpected-error", desc("pipeline error: " + perr.Error()), outcome, key
 				}
